@@ -115,3 +115,72 @@ def files_to_merge_are_one_per_xs_id(mask: int, w: int):
     mask = choose(mask, 0, 1023)
     w = choose(w, 0, 2)
     files_case(mask, w, "")
+
+
+# ----------------------------------------------------------------------------- which nuclide a library entry is
+XSNuclide = repo("armi.nuclearDataIO.xsNuclides:XSNuclide")
+
+
+class RegularBase:
+    def __init__(self, name, label):
+        self.name, self.label = name, label
+
+
+class DummyBase(RegularBase):
+    pass
+
+
+class BasesMod:
+    """stand-in for the module armi.nucDirectory.nuclideBases as seen from xsNuclides: the two look-up tables, the
+    class of dummy nuclides and changeLabel (its own text)"""
+
+    NuclideWrapper = repo("armi.nucDirectory.nuclideBases:NuclideWrapper")  # the real base class of XSNuclide
+    DummyNuclideBase = DummyBase
+    byName = {}
+    byLabel = {}
+
+    @staticmethod
+    def changeLabel(nuclideBase, newLabel):
+        nuclideBase.label = newLabel
+        BasesMod.byLabel[newLabel] = nuclideBase
+
+
+IDS = ["U235", "DUMMY", "LFP35", "XYZ"]
+LIB_LABELS = ["U235", "DUMP", "LFP5", "U5"]
+
+
+@lemma(gen={"i": (0, 3), "j": (0, 3)}, overrides={"armi.nuclearDataIO.xsNuclides:nuclideBases": "BasesMod"})
+def library_entry_resolves_to_its_nuclide(i: int, j: int, already: bool):
+    """XSNuclide.updateBaseNuclide (real constructor, NuclideWrapper) for every combination of the nuclide id in the
+    file metadata (U235: a real nuclide; DUMMY: a dummy nuclide; LFP35: a lumped fission product the name table does
+    not know; XYZ: unknown) and the 4-character label of the entry (U235, DUMP, LFP5: known labels; U5: unknown):
+    a real nuclide id decides; otherwise the label decides; neither -> OSError; an entry that already points to a
+    nuclide is left alone.  Afterwards the entry's label resolves to its nuclide (byLabel[label] is the base and
+    the base carries that label)."""
+    i = choose(i, 0, 3)
+    j = choose(j, 0, 3)
+    u235, dummy, dump, lfp = RegularBase("U235", "U235"), DummyBase("DUMMY", "DUMMY"), DummyBase("DUMP1", "DUMP"), RegularBase("LFP35", "LFP5")
+    BasesMod.byName = {"U235": u235, "DUMMY": dummy, "DUMP1": dump}
+    BasesMod.byLabel = {"U235": u235, "DUMMY": dummy, "DUMP": dump, "LFP5": lfp}
+    n = XSNuclide(None, LIB_LABELS[j] + "AA")
+    assert n.nucLabel == LIB_LABELS[j] and n.xsId == "AA"
+    n.isotxsMetadata["nuclideId"] = IDS[i]
+    other = RegularBase("PU239", "PU39")
+    if already:
+        n._base = other
+    try:
+        n.updateBaseNuclide()
+        refused = False
+    except OSError:
+        refused = True
+    byLabel = {"U235": u235, "DUMP": dump, "LFP5": lfp}
+    if already:
+        assert not refused and same(n._base, other) and other.label == "PU39", "already resolved: untouched"
+    elif i == 0:
+        assert not refused and same(n._base, u235), "the nuclide named in the file"
+    elif LIB_LABELS[j] in byLabel:
+        assert not refused and same(n._base, byLabel[LIB_LABELS[j]]), "no real nuclide id: the label decides"
+    else:
+        assert refused and n._base is None, "unknown id and unknown label: refused"
+    if not refused and not already:
+        assert n._base.label == n.nucLabel and same(BasesMod.byLabel[n.nucLabel], n._base), "the label resolves to this nuclide"
